@@ -10,6 +10,8 @@ pub mod c03;
 pub mod c04;
 pub mod c06;
 pub mod c07;
+pub mod c08;
+pub mod c10;
 pub mod c14;
 
 pub struct PropDef {
@@ -36,7 +38,7 @@ pub fn default_watchdog(tier: &str) -> u64 {
 }
 
 pub fn all() -> Vec<PropDef> {
-	vec![c01::def(), c02::def(), c03::def(), c04::def(), c06::def(), c07::def(), c14::def()]
+	vec![c01::def(), c02::def(), c03::def(), c04::def(), c06::def(), c07::def(), c08::def(), c10::def(), c14::def()]
 }
 
 #[derive(Clone, Debug, Deserialize)]
